@@ -19,7 +19,9 @@ theorem route_checker_correct (g : Graph) (p : Params) (r : Route) :
 /-- a two-path route over a small graph, sharing the payer's channel, that satisfies the spec -/
 def exGraph : Graph :=
   [ { scid := 1, src := 0, dst := 1, enabled := true, htlcMin := 1, htlcMax := 10000, cap := some 20000, base := 7, prop := 0, cltv := 40 },
+    { scid := 1, src := 1, dst := 0, enabled := true, htlcMin := 1, htlcMax := 10000, cap := some 20000, base := 1, prop := 1, cltv := 40 },
     { scid := 2, src := 1, dst := 2, enabled := true, htlcMin := 1, htlcMax := 3000, cap := none, base := 10, prop := 10000, cltv := 40 },
+    { scid := 2, src := 2, dst := 1, enabled := true, htlcMin := 1, htlcMax := 3000, cap := none, base := 0, prop := 0, cltv := 40 },
     { scid := 3, src := 1, dst := 2, enabled := true, htlcMin := 1, htlcMax := 3000, cap := some 2500, base := 0, prop := 0, cltv := 18 },
     { scid := 3, src := 2, dst := 1, enabled := false, htlcMin := 1, htlcMax := 3000, cap := some 2500, base := 0, prop := 0, cltv := 18 } ]
 def exParams : Params :=
@@ -63,7 +65,7 @@ theorem limit_is_min_of_max_and_capacity (c : Chan) :
     have h2 : ∀ x, Nat.min k x = min k x := fun _ => rfl
     rw [h1, h2]; omega
 
-example : (exGraph.map Chan.limit) = [10000, 3000, 2500, 2500] := by decide
+example : (exGraph.map Chan.limit) = [10000, 10000, 3000, 3000, 2500, 2500] := by decide
 
 /-! ## fee arithmetic -/
 
